@@ -13,7 +13,8 @@ RULE = ("address values of 10 classes (IPv4, IPv4 edges, IPv4-mapped, random IPv
         "and MAC bytes; cache files (lines as printed by the ARP scan, other spellings of the same address, extra / duplicate / "
         "null members, CRLF, unterminated last line, one bad line of 9 kinds at a random position, overlong line) with Get on both "
         "address forms; composition chains ARP frames -> processor -> JSON logger -> FillCache -> cache stage -> tcp/udp/icmp "
-        "filler with repeated addresses and gateway present/absent; getGatewayMAC; non-trivial = accepted text / loaded file with "
+        "filler with repeated addresses and gateway present/absent; getGatewayMAC on this host and on a multi-homed host (network "
+        "namespace with two uplinks of different metric and a stub interface, caches knowing both / own / other / no gateway); non-trivial = accepted text / loaded file with "
         "entries / chain with at least one reply; distinct by generator string")
 
 CODES = {1: "IP.String differs from the model's ip_text", 2: "HardwareAddr.String differs from mac_text",
